@@ -45,7 +45,7 @@ struct C17 : Harness {
         });
     }
     std::string run(const Program &p, Stats &st) override {
-        MonHooks17 mh; mh.reset((int)(fnv64(ser(p)) % 3));
+        MonHooks17 mh; mh.reset((int)(fnv64(ser(p)) % 9));
         ExecOptions eo; eo.hooks = &mh; eo.final_cleanup = false;
         Exec ex(api, eo);
         mh.ex = &ex;
